@@ -48,9 +48,12 @@ def plan(tier, seed):
         specs.append(dict(kind='history', sub=k, n=3 + k % 4,
                           steps=3000 if tier == 'thorough' else 600,
                           auto=(k % 3 == 1), hashseed=k))
+    # instances beyond truth tables (12-70 variables), see vf/big.py
+    from vf import big
+    specs.extend(big.specs(tier, seed, 'C04'))
     meta = dict(
         rule=RULE,
-        require=['cofactor_results', 'rename_results', 'compose_results',
+        require=['big_histories', 'cofactor_results', 'rename_results', 'compose_results',
                  'vector_results', 'steps', 'function_let_results',
                  'operand_unchanged_checks'],
         assumptions=['truth-table model in vf/oracle.py',
@@ -336,6 +339,9 @@ def history(ctx, spec):
 
 
 def run_shard(ctx, spec):
+    if spec['kind'] == 'big':
+        from vf import big
+        return ctx.guard('big', big.run, ctx, spec, case=spec)
     fn = dict(cof_ren=cof_ren, compose1=compose1, vector=vector, n4=n4,
               history=history)[spec['kind']]
     ctx.guard(spec['kind'], fn, ctx, spec, case=spec)
